@@ -21,7 +21,7 @@ from . import C05
 EXPLANATION = ("Header-size selection sites are found by their use of both header types' sizes and folded for both flag values; send / "
                "receive_complete / receive / recycle are path-enumerated with the queue API as events and checked for operand shape, "
                "folded length arithmetic and slot/token provenance.")
-FLOORS = {'selector_sites': {'*': 8, 'noalloc': 5}, 'custody_fns': {'*': 2, 'noalloc': 0}}
+FLOORS = {'selector_sites': {'*': 3, 'noalloc': 2}, 'custody_fns': {'*': 2, 'noalloc': 0}}
 RAW = 'device::net::dev_raw::VirtIONetRaw'
 NET = 'device::net::dev::VirtIONet'
 
